@@ -47,7 +47,7 @@ var twoM52 = new(big.Rat).SetFrac(big.NewInt(1), new(big.Int).Lsh(big.NewInt(1),
 
 // genNumeric draws a numeric list. class: 0 exact (small ints and dyadic fractions), 1 general, 2 extreme ints, 3 product-friendly
 func genNumeric(r *rng.R) (vals []any, class int) {
-	n := []int{1, 1, 2, 3, 5, 8, 13, 30, r.Range(1, 30)}[r.Intn(9)]
+	n := []int{1, 1, 2, 3, 5, 8, 13, 30, r.Range(1, 30), r.Range(1, 30), 64, 200}[r.Intn(12)]
 	class = r.Intn(4)
 	mode := r.Intn(5) // 0 ints, 1 floats, 2.. mixed
 	neg := r.Chance(1, 4)
@@ -128,7 +128,7 @@ func runC18(c *fw.Ctx) {
 	})
 	// Int* family on arbitrary lists (non-int elements interleaved), and the no-qualifying-element results
 	c.Cases("int-family", c.N(2000, 1000000), false, func(i int, r *rng.R) {
-		n := []int{0, 1, 2, 5, 9, r.Range(0, 20)}[r.Intn(6)]
+		n := []int{0, 1, 2, 5, 9, r.Range(0, 20), r.Range(0, 20), 40, 130}[r.Intn(9)]
 		vals := make([]any, n)
 		noInts := r.Chance(1, 6)
 		for j := range vals {
